@@ -17,6 +17,14 @@ from . import common as C
 
 SECTIONS = ['C10', 'C11', 'C18', 'C19', 'C20']
 NAMES = 'abcdefgh'
+# identifiers that are legal but unusual (empty string, space, newline, non-ASCII, quote, the bare word lag): every fifth DAG of a
+# sweep is built over these instead of single letters -- the answers are mapped back to indices, so the comparison with the model
+# is the renaming-invariance clause of the properties
+HOSTILE_NAMES = ['', 'a b', 'X\n', '\u00e9', 'lag', "it's", 'node_1', 'zz']
+
+
+def names_for(n, arcs):
+    return HOSTILE_NAMES if (n + 3 * len(arcs) + sum(b for _, b in arcs)) % 5 == 0 else NAMES
 
 
 def is_acyclic_bits(n, arcs):
@@ -139,7 +147,7 @@ def prepared(n, arcs):
     """the graph object on which the recorded answers are taken: built by build(), and for every other DAG already queried
     once with the whole battery (answers discarded).  Used by the sweep AND by the reference-definition search, so that a
     failure that needs an earlier query on the same object is reproduced by the search."""
-    g = build(n, arcs)
+    g = build(n, arcs, names_for(n, arcs))
     if (len(arcs) + sum(a for a, _ in arcs)) % 2 == 1:
         try:
             _answers(g, n, arcs, [True] * 5)
@@ -149,7 +157,7 @@ def prepared(n, arcs):
 
 
 def _answers(g, n, arcs, which):
-    N = NAMES
+    N = names_for(n, arcs)
     ix = {N[i]: i for i in range(n)}
     V = range(n)
     opairs = [(x, y) for x in V for y in V if x != y]
@@ -254,6 +262,9 @@ def cq_dcase(n, arcs, which, hashes, aux):
                cq_nats(aux['topo']), ds, f(aux['conf']), f(aux['inst']), f(aux['mb'])))
 
 
+EXCEPTIONS = []
+
+
 def sweep(dags, which, tag='dag', chunk=250, procs=None):
     """dags: list of (n, arcs). Returns list of per-DAG result vectors (lists of ints) from Coq and the raw impl data."""
     procs = procs or C.NCPU
@@ -270,7 +281,9 @@ def sweep(dags, which, tag='dag', chunk=250, procs=None):
         rows = []
         for (n, arcs), r in zip(dags[i:i + chunk], impl[i:i + chunk]):
             if r[0] == 'EXC':
-                raise RuntimeError(f'implementation raised on DAG n={n} arcs={arcs}: {r[1]}')
+                # a query raised on a DAG with existing nodes: recorded as a divergence (hashes 0); the search explains it
+                EXCEPTIONS.append((n, arcs, r[1]))
+                r = ([0] * 5, dict(topo=[], dsets=[], conf=[], inst=[], mb=[]))
             rows.append(cq_dcase(n, arcs, which, r[0], r[1]))
         f.write_text(C.COQ_HEADER + 'From CG Require Import Base CorrDag.\nFrom Coq Require Import Uint63.\n'
                      'Definition cs : list dcase := [\n ' + ';\n '.join(rows) + '\n].\n'
